@@ -263,7 +263,7 @@ impl CellBuffer {
             .css_styles
             .iter()
             .map(|(class, styles)| {
-                format!(".svgbob .{}{{ {} }}", class, styles)
+                format!(".svgbob .{}{{ {} }}", class, escape_css_text(styles))
             })
             .collect();
         classes.join("\n")
@@ -561,6 +561,25 @@ impl CellBuffer {
         }
         (escaped_text, no_escaped_text)
     }
+}
+
+/// escape the characters in the css which would otherwise be
+/// interpreted as markup when the style element is serialized
+fn escape_css_text(css: &str) -> String {
+    css.chars()
+        .filter(|ch| {
+            !matches!(ch,
+                '\0'..='\u{8}' | '\u{b}' | '\u{c}' | '\u{e}'..='\u{1f}' | '\u{fffe}' | '\u{ffff}')
+        })
+        .fold(String::new(), |mut acc, ch| {
+            match ch {
+                '<' => acc.push_str("&lt;"),
+                '>' => acc.push_str("&gt;"),
+                '&' => acc.push_str("&amp;"),
+                _ => acc.push(ch),
+            }
+            acc
+        })
 }
 
 impl fmt::Display for CellBuffer {
